@@ -76,5 +76,10 @@ std::string str_list(const std::vector<T>& v) {
 	return os.str();
 }
 
-// one family = one entry point reading case lines from stdin, one output line per case
-int oracle_util(int argc, char** argv);
+// one family = one entry point reading case lines from stdin, one output line per case.
+// A family registers itself:  static Family reg("util", oracle_util);
+using FamilyFn = int (*)(int argc, char** argv);
+std::map<std::string, FamilyFn>& families();
+struct Family {
+	Family(const char* name, FamilyFn fn) { families()[name] = fn; }
+};
